@@ -112,7 +112,11 @@ def fillRange (a : Array Nat) (start len val : Nat) : Array Nat :=
 
 /-- `try_compile_to_table`; `none` when the node is not compiled to a table.
 NOTE the Rust evaluates `value + 1` in `i32` (panics in checked builds for `value = i32::MAX`,
-finding F8); the model computes in `Int` — the repaired behaviour. -/
+finding F8); the model computes in `Int` — the repaired behaviour.
+The range that ends at `i32::MAX` fills the whole tail of the table: this models the repaired code
+(/repo f9ead7c). The unrepaired code wrote only the last entry, which left entries at 0 when a
+decision value is `i32::MAX` itself (finding F14; the old fold is kept as `tryCompileOld` in
+`Proofs/TableOld.lean` for the witness `C03_unrepaired_table_wrong_at_i32max`). -/
 def tryCompile (chan stream prevCh : Nat) (t : Tree) (nextBase : Nat) :
     Option (FlatNode × List Tree) :=
   match t with
@@ -132,7 +136,8 @@ def tryCompile (chan stream prevCh : Nat) (t : Tree) (nextBase : Nat) :
         let (ind, nodes, rangeStart, nextIdx, idx, done) := st
         if done then st
         else if e.2 == i32Max then
-          (ind.setIfInBounds (ind.size - 1) (nextBase + idx), nodes ++ [e.1], rangeStart, nextIdx, idx + 1, true)
+          -- the last range takes every remaining entry (`indices[next_index..].fill(..)`)
+          (fillRange ind nextIdx (ind.size - nextIdx) (nextBase + idx), nodes ++ [e.1], rangeStart, nextIdx, idx + 1, true)
         else
           let len := (e.2 - rangeStart).toNat
           (fillRange ind nextIdx len (nextBase + idx), nodes ++ [e.1], e.2, nextIdx + len, idx + 1, false)
